@@ -58,12 +58,16 @@ contract("artap.algorithm_NSGAII:NSGAII.run", props=["C09", "C08"], options={"bo
              "if not any(vclose(d, t) for t in gen_of(self.problem, g + 1)) for s in gen_of(self.problem, g + 1))",
              "implies(len(self.problem.costs) == 1, all(min(x.costs[0] for x in gen_of(self.problem, g + 1)) <= "
              "min(x.costs[0] for x in gen_of(self.problem, g)) + 1e-12 for g in range(1, self.run_G)))"])
+_LEADERS = ["len(self.leaders._contents) <= self.run_N",       # C18: the leader archive never exceeds the population size ...
+            "all(self.problem.ghost_cmp.compare(a.costs_signed, b.costs_signed) == 0 for i, a in enumerate(self.leaders._contents) "
+            "for j, b in enumerate(self.leaders._contents) if i != j)"]      # ... and its members are mutually non-dominated
 for _t in ("artap.algorithm_genetic:EpsMOEA.run", "artap.algorithm_swarm:OMOPSO.run", "artap.algorithm_swarm:SMPSO.run"):
-    contract(_t, props=["C09", "C08"], options={"bounded_only": True},
+    contract(_t, props=["C09", "C08"] + ([] if "EpsMOEA" in _t else ["C18"]), options={"bounded_only": True},
              trusted="bounded: orchestration checked on real runs only",
              ensures=_RUN_COMMON + [
                  "self.problem.ghost_calls == self.run_N * (self.run_G + 1)",
                  "all(0 <= x.population_id and x.population_id <= self.run_G for x in self.problem.individuals)",
-                 "all(len(gen_of(self.problem, g)) == self.run_N for g in range(0, self.run_G + 1))"])
+                 "all(len(gen_of(self.problem, g)) == self.run_N for g in range(0, self.run_G + 1))"] +
+             ([] if "EpsMOEA" in _t else _LEADERS))
 contract("artap.algorithm_swarm:PSOGA.run", props=["C08"], options={"bounded_only": True},
          trusted="bounded: orchestration checked on real runs only", ensures=_RUN_COMMON)
